@@ -667,6 +667,8 @@ func runC20(c *Ctx) {
 		idH, litH = d.Handlers["Identifier"], d.Handlers["LiteralExpression"]
 		// locals assigned by a formula are entries of the current data map, stored on every path (null included)
 		c07Binding(c, d, "C20.locals-are-map-entries")
+		// ... and stay what they were: no later evaluation writes into a number a local holds
+		c07Fresh(c, "C20.stored-values-not-mutated")
 	}
 	valueOK := map[*ssa.Function]bool{newRunner: true, set: true, get: true}
 	thisStore := map[*ssa.Function]bool{setThis: true, setThisValue: true}
